@@ -28,7 +28,7 @@ ENGINES = [
     {
         "name": "E1-enumerator",
         "path": "mc/par.py",
-        "serves_properties": ["C01", "C03", "C04", "C05", "C06", "C07", "C08", "C09", "C10", "C13"],
+        "serves_properties": ["C01", "C03", "C04", "C05", "C06", "C07", "C08", "C09", "C10", "C12", "C13", "C14", "C15", "C16", "C17"],
         "kind_free_text": "bounded-exhaustive enumeration of a closed input space, sharded over 16 processes, every case "
         "executed on the real code and compared with a reference model",
     },
@@ -143,6 +143,33 @@ CHECKS = [
         "text": "All BoolGridFrame sizes up to 12 (17) segments x ALL segment subsets x single_cycle off/on/alias x encodings; admitted subsets additionally force both returned arrays.",
         "design_ref": "DESIGN.md section 2, C10",
         "note": "Frames of 3x3 and larger rest on the small-scope argument.",
+    },
+    {
+        "id": "C12",
+        "engine": "E1-enumerator",
+        "category": "exploration",
+        "technique": "bounded-exhaustive enumeration of operator forms x operand kinds x shapes with a reference tree evaluator over all assignments",
+        "text": "Every operator form x operand-kind combination x small shape is built on the real arrays and every produced element is evaluated under all 36 assignments against the Python meaning; every shape mismatch and every bool/int expression-or-array kind mismatch must raise; aggregate helpers over every nesting of <=3 (4) leaves; conv2d under all 2^(hw) assignments; four_neighbors at every coordinate.",
+        "design_ref": "DESIGN.md section 2, C12",
+        "note": "== / != across kinds and bool literals in integer positions are not judged; any exception type counts as rejection; value oracle mc/refsem.py.",
+    },
+    {
+        "id": "C14",
+        "engine": "E1-enumerator",
+        "category": "exploration",
+        "technique": "bounded-exhaustive enumeration of frame sizes x coordinates against a lattice reference model",
+        "text": "Frames h,w in 0..3 (0..5), three constructions, every coordinate in and around the frame for every accessor, compared on variable identity with a pair-of-lattice-points model; dual is an involution; the loop-constraint graph lists each segment once.",
+        "design_ref": "DESIGN.md section 2, C14",
+        "note": "Order inside neighbour lists is not judged.",
+    },
+    {
+        "id": "C15",
+        "engine": "E1-enumerator",
+        "category": "exploration",
+        "technique": "bounded-exhaustive enumeration of combinator terms x domain values, round-trip oracle",
+        "text": "A term language over the combinators (bases with parameter menus, all FIRST-disjoint OneOf of 2-3 alternatives, Seq/Grid/Tupl/Rooms/ValuedRooms to depth 3, ~3.7k terms) x type-directed value domains with boundary values, all boards h,w<=3 and blank runs up to 2*max+1 on 1xN/Nx1, every connected room partition of boards <=6 (9) cells in every order: decode(encode(v)) == v and consumed == produced.",
+        "design_ref": "DESIGN.md section 2, C15",
+        "note": "Value domains are harness-side (mc/serterms.py): a Tupl element list is exactly one step of its element; rooms are connected; terms with a greedy decimal reader followed by a digit are not admitted.",
     },
     {
         "id": "C13",
